@@ -27,6 +27,7 @@ import (
 	"go.amzn.com/lambda/rapidcore/env"
 	supvmodel "go.amzn.com/lambda/supervisor/model"
 	"go.amzn.com/lambda/telemetry"
+	"go.amzn.com/lambda/verifhook"
 
 	"github.com/google/uuid"
 	log "github.com/sirupsen/logrus"
@@ -256,6 +257,7 @@ func (c *rapidContext) watchEvents(events <-chan supvmodel.Event) {
 		// When their are other event types then we would need to be selective,
 		// about what we send to handleShutdownEvent().
 		c.shutdownContext.handleProcessExit(*termination)
+		verifhook.Point("rapid.watchEvents.beforeCancelFlows")
 		c.registrationService.CancelFlows(err)
 	}
 }
